@@ -4,7 +4,7 @@ real Serve with a fake listener, gates and a logical clock (harness `life`); Tra
 import json, os, random, re
 from vf import *
 
-OPMAP = {"offer": "offer", "release": "release", "packet": "packet", "partial": "partial", "eof": "eof", "hrel": "hrel",
+OPMAP = {"lclose": "lclose", "offer": "offer", "release": "release", "packet": "packet", "partial": "partial", "eof": "eof", "hrel": "hrel",
          "cancel": "cancel", "kick": "kick", "fire": "fire"}
 
 
@@ -34,7 +34,9 @@ def rand_schedule(rng, idx):
             else:
                 steps.append(["tick", rng.choice([5, 11])])
         else:
-            if r < 0.3:
+            if r < 0.1:
+                steps.append(["packetc", c]); state[c] = "handler"
+            elif r < 0.3:
                 steps.append(["packet", c]); state[c] = "handler"
             elif r < 0.5:
                 steps.append(["hrel", c]); state[c] = "open"
@@ -46,6 +48,8 @@ def rand_schedule(rng, idx):
                 steps.append(["eof", c])
             elif r < 0.94:
                 steps.append(["acceptfault", 0])
+            elif r < 0.955:
+                steps.append(["lclose", 0])
             elif r < 0.97:
                 steps.append(["cancel", 0])
             else:
@@ -65,6 +69,12 @@ def drip_schedules():
         for _ in range(5):
             steps2 += [["partial", 1], ["tick", gap]]
         out.append({"id": "drip2-%d" % k, "steps": steps2, "refuse": []})
+    # an exchange left waiting for its next packet, then silence past the deadline; the operator closing the listener himself
+    out.append({"id": "midex1", "steps": [["offer", 1], ["release", 1], ["packetc", 1], ["hrel", 1], ["tick", 16], ["tick", 16]], "refuse": []})
+    out.append({"id": "midex2", "steps": [["offer", 1], ["release", 1], ["packetc", 1], ["hrel", 1], ["packetc", 1], ["hrel", 1], ["tick", 20], ["offer", 2], ["release", 2], ["tick", 20]], "refuse": []})
+    out.append({"id": "opclose1", "steps": [["offer", 1], ["release", 1], ["packet", 1], ["cancel", 0], ["lclose", 0]], "refuse": []})
+    out.append({"id": "opclose2", "steps": [["offer", 1], ["release", 1], ["offer", 2], ["lclose", 0], ["cancel", 0]], "refuse": []})
+    out.append({"id": "opclose3", "steps": [["offer", 1], ["release", 1], ["packetc", 1], ["lclose", 0]], "refuse": []})
     out.append({"id": "fault1", "steps": [["offer", 1], ["release", 1], ["acceptfault", 0], ["offer", 2], ["release", 2], ["packet", 2], ["hrel", 2]], "refuse": []})
     out.append({"id": "fault2", "steps": [["acceptfault", 0], ["acceptfault", 0], ["offer", 1], ["release", 1], ["packet", 1], ["hrel", 1]], "refuse": []})
     out.append({"id": "refused1", "steps": [["offer", 1], ["release", 1], ["offer", 2], ["release", 2], ["packet", 2], ["hrel", 2], ["offer", 3], ["release", 3]], "refuse": [1, 3]})
